@@ -70,9 +70,10 @@ class CountingSemaphore:
 
 
 class Sub:
-    def __init__(self, run, idx, name, raise_on_done=False, slow=False, raise_on_queued=False):
+    def __init__(self, run, idx, name, raise_on_done=False, slow=False, raise_on_queued=False, chain=None):
         self.run, self.idx, self.name, self.raise_on_done, self.slow = run, idx, name, raise_on_done, slow
         self.raise_on_queued = raise_on_queued
+        self.chain = chain
 
     def on_queued(self, future, **kw):
         self.run.log.add('cb.on_queued', idx=self.idx, sub=self.name)
@@ -89,6 +90,8 @@ class Sub:
             with self.run.slow_lock:
                 self.run.slow_waiting.append(ev)
             ev.wait(20)
+        if self.chain is not None:
+            self.chain(self.idx)  # a follow-up transfer started on the same manager from inside the callback
         if self.raise_on_done:
             self.run.log.add('cb.on_done.ret', idx=self.idx, sub=self.name, raised=True)
             raise RuntimeError('vf-on_done-raises')
@@ -154,7 +157,12 @@ def run_spec(spec):
     orig_report = crt.CRTTransferCoordinator.set_done_callbacks_complete
 
     def reporting(self_c):
-        log.add('done.report', idx=self_c.transfer_id, path_state=path_state(self_c.transfer_id))
+        # (which transfer: from the harness's own thread context, as for the permit releases - the manager's transfer ids are its
+        # own numbering, which skips calls it refuses)
+        idx = getattr(tls, 'completing', None)
+        if idx is None:
+            idx = getattr(tls, 'submitting', None)
+        log.add('done.report', idx=idx, path_state=path_state(idx), transfer_id=self_c.transfer_id)
         return orig_report(self_c)
 
     crt.CRTTransferCoordinator.set_done_callbacks_complete = reporting
@@ -171,6 +179,25 @@ def run_spec(spec):
     sub_done = threading.Event()
     exit_began = threading.Event()
 
+    def tspec(idx):
+        # (chained follow-up transfers, numbered from 1000, are plain successful deletes)
+        return ts[idx] if isinstance(idx, int) and idx < len(ts) else {'outcome': 'ok', 'kind': 'delete'}
+
+    chained = run.chained = {}
+
+    def chain(i):
+        j = 1000 + i
+        old = getattr(tls, 'submitting', None)
+        tls.submitting = j
+        log.add('submit.begin', idx=j, chained=True)
+        try:
+            chained[j] = mgr.delete('bkt', f'chained-{i}', subscribers=[Sub(run, j, 's0')])
+        except BaseException as e:  # noqa
+            chained[j] = e
+        finally:
+            tls.submitting = old
+        log.add('submit.end', idx=j)
+
     def submit_all():
         try:
             for i, t in enumerate(ts):
@@ -179,7 +206,7 @@ def run_spec(spec):
                 datas[i] = data
                 nsub = t.get('subs', 1)
                 subs = [Sub(run, i, f's{k}', raise_on_done=(t.get('raise_on_done') and k == 0), slow=(t.get('slow') and k == 0),
-                            raise_on_queued=(t['outcome'] == 'queued_fail' and k == nsub - 1))
+                            raise_on_queued=(t['outcome'] == 'queued_fail' and k == nsub - 1), chain=(chain if t.get('chain') and k == 0 else None))
                         for k in range(nsub)]
                 log.add('submit.begin', idx=i)
                 try:
@@ -234,7 +261,7 @@ def run_spec(spec):
             while not stop.is_set():
                 with client.lock:
                     pend = [r for r in client.requests if not r.completed]
-                avail = [r for r in pend if not (ts[r.idx].get('hold') and not exit_began.is_set())]
+                avail = [r for r in pend if not (tspec(r.idx).get('hold') and not exit_began.is_set())]
                 if not avail:
                     time.sleep(0.0005)
                     continue
@@ -243,7 +270,7 @@ def run_spec(spec):
                     continue
                 with client.lock:
                     pend = [r for r in client.requests if not r.completed]
-                avail = [r for r in pend if not (ts[r.idx].get('hold') and not exit_began.is_set())]
+                avail = [r for r in pend if not (tspec(r.idx).get('hold') and not exit_began.is_set())]
                 if not avail:
                     continue
                 if order == 'fifo':
@@ -252,7 +279,7 @@ def run_spec(spec):
                     r = avail[-1]
                 else:
                     r = crng.choice(avail)
-                o = ts[r.idx]['outcome']
+                o = tspec(r.idx)['outcome']
                 # half of the failing / cancelled path downloads fail before the CRT has created its receive file
                 r.no_partial_file = (spec['seed'] + r.idx) % 2 == 0
                 client.complete(r, 'ok' if o == 'ok' else 'error', datas.get(r.idx, b''))
@@ -296,7 +323,7 @@ def run_spec(spec):
             # a request the stub CRT could complete right now has not been completed yet: the harness, not the library, is behind
             with client.lock:
                 pend = [r for r in client.requests if not r.completed]
-            if any(not (ts[r.idx].get('hold') and not exit_began.is_set()) for r in pend):
+            if any(not (tspec(r.idx).get('hold') and not exit_began.is_set()) for r in pend):
                 return True
             with run.slow_lock:
                 return bool(run.slow_waiting)  # ... or a slow on_done is waiting for the harness to let it return
@@ -429,6 +456,19 @@ def evaluate(spec, run):
                               sym='not-renamed', **m))
             if oc is not None and oc[0] == 'raised' and cur != run.prevs.get(i):
                 viol.append(V(f'transfer {i}: failed path download changed the destination', sym='dest-changed', **m))
+    for j, f in getattr(run, 'chained', {}).items():
+        stats['chained'] = stats.get('chained', 0) + 1
+        dn_ret = [e['n'] for e in ev if e['kind'] == 'cb.on_done.ret' and e['idx'] == j]
+        if isinstance(f, BaseException):
+            continue  # refused at call time (e.g. the manager was already shut down): nothing to wait for
+        if not dn_ret:
+            viol.append(V(f'transfer {j} (started from an on_done callback of transfer {j - 1000} before {spec.get("exit")} returned): its on_done never '
+                          f'ran', sym='on_done-count', chained=True, **mech0))
+        elif se and max(dn_ret) > se[0]:
+            viol.append(V(f'transfer {j} (started from an on_done callback while {spec.get("exit")} was waiting): {spec.get("exit")} returned before its '
+                          f'on_done callbacks finished', sym='exit-before-on_done', chained=True, **mech0))
+        if run.releases.get(j, 0) != 1:
+            viol.append(V(f'transfer {j} (chained delete): {run.releases.get(j, 0)} permit releases', sym='release-count', chained=True, **mech0))
     if run.sem.value != run.sem.n0:
         viol.append(V(f'semaphore value {run.sem.value} at quiescence, initial {run.sem.n0} (acquires {run.sem.acquires}, releases '
                       f'{run.sem.releases})', sym='semaphore-value', leaked=run.sem.value < run.sem.n0, **mech0))
@@ -483,6 +523,20 @@ def gen_cases(tier, seed):
         ex = rng.choice(['shutdown', 'shutdown_cancel', 'with', 'with_exc'])
         cases.append({'seed': rng.randrange(1 << 30), 'permits': permits, 'transfers': ts, 'order': rng.choice(['fifo', 'reverse', 'seeded']),
                       'exit': ex, 'crt_threads': rng.choice([1, 2, 3])})
+    # follow-up transfers: an on_done subscriber starts another transfer on the same manager (delete the source after a download ...)
+    # while the exit is already waiting - one of the held requests is only completed once the exit has begun; the exit has to wait
+    # for the follow-up too
+    for i in range(60 if quick else 600):
+        n = rng.randint(1, 3)
+        ts = []
+        for j in range(n):
+            k, extra = rng.choice(kinds)
+            ts.append(dict({'kind': k, 'outcome': rng.choice(['ok', 'ok', 'error']), 'size': rng.choice([0, 5, 40]), 'subs': rng.choice([1, 2])}, **extra))
+        tc = rng.choice(ts)
+        tc['chain'] = True
+        tc['hold'] = True  # completed only after the exit has begun
+        cases.append({'seed': rng.randrange(1 << 30), 'permits': rng.choice([8, 128]), 'transfers': ts, 'order': rng.choice(['fifo', 'reverse', 'seeded']),
+                      'exit': rng.choice(['shutdown', 'with']), 'crt_threads': rng.choice([1, 2, 3]), 'family': 'chained'})
     # many more transfers than permits
     for i in range(6 if quick else 40):
         n = rng.choice([40, 150, 300]) if not quick else rng.choice([40, 150])
